@@ -336,8 +336,83 @@ func main() {
 			bodies[group] = func() { explore(r, spec, names, depth, group) }
 		}
 	}
+	// long runs of bindings (beyond the BFS depth): m_i bindings per challenge for m_i in {0,1,4,5,6,9}, bound challenge
+	// after challenge or round-robin, then every challenge computed in order - against the same sequential model
+	for _, spec := range specs()[:2] {
+		spec := spec
+		group := spec.name + "/long-binding-runs"
+		groups = append(groups, group)
+		bodies[group] = func() { longRuns(r, spec, group) }
+	}
 	r.Parallel(groups, func(g string) { bodies[g]() })
 	r.Finish()
+}
+
+func longRuns(r *vlib.Run, spec hashSpec, group string) {
+	ms := []int{0, 1, 4, 5, 6, 9}
+	n := 0
+	for k := 2; k <= 3; k++ {
+		names := []string{"c0", "gamma", "b"}[:k]
+		total := 1
+		for i := 0; i < k; i++ {
+			total *= len(ms)
+		}
+		for t := 0; t < total; t++ {
+			cnt := make([]int, k)
+			x := t
+			for i := range cnt {
+				cnt[i] = ms[x%len(ms)]
+				x /= len(ms)
+			}
+			for order := 0; order < 3; order++ { // 0: challenge after challenge, 1: last challenge first, 2: round-robin
+				var h []op
+				switch order {
+				case 0:
+					for c := 0; c < k; c++ {
+						for j := 0; j < cnt[c]; j++ {
+							h = append(h, op{0, c, 1 + (j+c)%2})
+						}
+					}
+				case 1:
+					for c := k - 1; c >= 0; c-- {
+						for j := 0; j < cnt[c]; j++ {
+							h = append(h, op{0, c, 1 + (j+c)%2})
+						}
+					}
+				default:
+					left := append([]int{}, cnt...)
+					for more := true; more; {
+						more = false
+						for c := 0; c < k; c++ {
+							if left[c] > 0 {
+								h = append(h, op{0, c, 1 + (left[c]+c)%2})
+								left[c]--
+								more = true
+							}
+						}
+					}
+				}
+				for c := 0; c < k; c++ {
+					h = append(h, op{1, c, 0})
+				}
+				e := newExec(spec, names)
+				for i, o := range h {
+					var d string
+					if p := vlib.Guard(func() { d = e.step(o) }); p != "" {
+						d = "panic: " + p
+					}
+					n++
+					if d != "" {
+						r.FailIn(group, group+"/"+classify(d, h[:i+1]), fmt.Sprintf("bindings=%v,order=%d,step=%d", cnt, order, i), d, map[string]any{"hash": spec.name, "bindings": cnt, "order": order})
+						break
+					}
+				}
+			}
+		}
+	}
+	r.AddStates(n)
+	r.AddTransitions(n)
+	r.Tag(group)
 }
 
 func explore(r *vlib.Run, spec hashSpec, names []string, maxDepth int, group string) {
